@@ -90,3 +90,42 @@ Qed.
 Example accepted_by_cell_instance :
   check_C01 (CByCell true [0; 0] [4; 3] [1 # 2; 1] (1 # 1000000000000) (Some [8; 3]%Z)) = true.
 Proof. vm_compute. reflexivity. Qed.
+
+(* ---- the region case: observed pmin/pmax are the model's (either corner order), hence ordered ---- *)
+Lemma check_region_sound p1 p2 lo hi :
+  check_C01 (CRegion p1 p2 (Some (lo, hi))) = true ->
+  exists r, mk_region p1 p2 None None (1 # 1000000000000) = OK r /\
+    Forall2 Qeq (pmin r) lo /\ Forall2 Qeq (pmax r) hi.
+Proof.
+  cbn [check_C01]. destruct (mk_region p1 p2 None None (1 # 1000000000000)) as [r|e]; [|discriminate].
+  intro H. apply andb_true_iff in H. destruct H as [H1 H2].
+  exists r. split; [reflexivity|]. split; apply qlist_eqb_sound_gen; assumption.
+Qed.
+
+Lemma Forall2_Qlt_transport a b a' b' :
+  Forall2 (fun x y => x < y) a b -> Forall2 Qeq a a' -> Forall2 Qeq b b' -> Forall2 (fun x y => x < y) a' b'.
+Proof.
+  intro H. revert a' b'. induction H as [|x y a b Hxy _ IH]; intros a' b' Ha Hb.
+  - inversion Ha; inversion Hb; constructor.
+  - inversion Ha as [|? x' ? a'' Ex Ea]; inversion Hb as [|? y' ? b'' Ey Eb]; subst.
+    constructor; [rewrite <- Ex, <- Ey; exact Hxy | apply IH; assumption].
+Qed.
+
+Theorem accepted_region_ordered p1 p2 lo hi :
+  check_C01 (CRegion p1 p2 (Some (lo, hi))) = true -> (length p1 <= 10)%nat ->
+  Forall2 (fun x y => x < y) lo hi /\ length lo = length p1 /\ length hi = length p1.
+Proof.
+  intros H Hnd. destruct (check_region_sound _ _ _ _ H) as (r & Hr & Hlo & Hhi).
+  assert (W : wf_region r) by (eapply mk_region_wf; [exact Hr | lra | intros _; exact Hnd]).
+  destruct W as (W1 & _ & _ & _ & _ & Hord & _).
+  split; [exact (Forall2_Qlt_transport _ _ _ _ Hord Hlo Hhi)|].
+  assert (Lr : length (pmin r) = length p1).
+  { unfold mk_region in Hr.
+    destruct (negb (length p1 =? length p2)%nat) eqn:E1; [discriminate|].
+    destruct (length p1 =? 0)%nat; [discriminate|]. simpl in Hr.
+    destruct (existsb _ _); [discriminate|]. inversion Hr; subst r; simpl.
+    apply negb_false_iff, Nat.eqb_eq in E1. rewrite map2_length. lia. }
+  split.
+  - rewrite <- (Forall2_length_gen _ _ _ Hlo). exact Lr.
+  - rewrite <- (Forall2_length_gen _ _ _ Hhi), <- W1. exact Lr.
+Qed.
